@@ -56,16 +56,21 @@ def histories(rng, tier):
     rates = [F(1, 8), F(1), F(1, 1024)]
     out = []
     # exhaustive: up to L events, each event = (time step, kind)
-    L = 4 if tier == "quick" else 5
+    L = 4
     kinds = ["r0", "r1", "c"]
     steps = [F(0), F(1, 8), F(1), F(300), F(4801, 8)] if tier == "quick" else STEPS
-    for n in range(1, L + 1):
-        for combo in itertools.product(itertools.product(range(len(steps)), kinds), repeat=n):
-            t = F(0); ev = []
-            for si, k in combo:
-                t += steps[si]
-                ev.append(("c", t) if k == "c" else ("r", t, IPS[int(k[1])]))
-            out.append(ev)
+    def enum(steps, lens):
+        for n in lens:
+            for combo in itertools.product(itertools.product(range(len(steps)), kinds), repeat=n):
+                t = F(0); ev = []
+                for si, k in combo:
+                    t += steps[si]
+                    ev.append(("c", t) if k == "c" else ("r", t, IPS[int(k[1])]))
+                out.append(ev)
+    enum(steps, range(1, L + 1))
+    if tier != "quick":
+        # five events over the three steps that matter for the window / eviction boundaries (24^5 full histories would be 8M)
+        enum([F(0), F(1, 8), F(4801, 8)], [5])
     exh = len(out)
     cfgs = list(itertools.product(caps, rates))
     cases = []
@@ -92,8 +97,8 @@ def run(tier, seed):
     res = Result()
     cases, exh = histories(rng, tier)
     res.rule = ("all histories of <= %d events over 2 addresses x {request, clean-up pass} x time steps incl. 0, 1/8, 300, 600+1/8 s "
-                "(%d histories, configurations cap 1..3 x rate 1/8, 1, 1/1024 rotated, cap 1 / rate 1/1024 always), plus random long runs; "
-                "non-trivial = distinct history with at least one refusal and one admission") % (4 if tier == "quick" else 5, exh)
+                "(%d histories; thorough adds all 5-event histories over the steps 0, 1/8, 600+1/8; configurations cap 1..3 x rate 1/8, 1, 1/1024 rotated, cap 1 / rate 1/1024 always), plus random long runs; "
+                "non-trivial = distinct history with at least one refusal and one admission") % (4, exh)
     res.exhaustive = True
     async def go():
         return [await run_history(c, r, ev) for c, r, ev in cases]
